@@ -77,7 +77,7 @@ func TestVerifC05Crash(t *testing.T) {
 	defer r.Flush()
 	depth := 3
 	if ev.Thorough() {
-		depth = 4
+		depth = 6
 	}
 	r.Rule(fmt.Sprintf("every history of length <=%d over {ADD(p), DEL(p), ADD(q), DEL(q), vanish(p);gc} (IPv4; dual stack one level shallower) through the real AllocIP/ReleaseIP/gcPods on the real pool with a real bolt-backed DiskStorage; a crash after EACH externally visible effect (cloud call effect, database commit, reply): durable state = bytes of the database file + cloud state at that moment, memory lost; every crash point is recovered with the real start-up path (NewDiskStorage -> load, filterENINotFound, NewLocal(...).Run(stored bindings) via Manager.Run) and probed: acknowledged ADDs still own the same address and have a record, acknowledged DELs have none, a fresh ADD never receives an acknowledged pod's address, pool ownership has a record", depth))
 	dir := t.TempDir()
